@@ -1,5 +1,6 @@
 """Shared check infrastructure: obligations, evidence, known findings, reporting."""
 import json
+import re
 import os
 import sys
 import time
@@ -351,6 +352,36 @@ def explain_diff(ex, a, b, path='', depth=0):
                 return d
         return '%s: nodes differ (%s discr %s name %s / %s discr %s name %s)' % (path, a.ty[:30], a.discr, a.name, b.ty[:30], b.discr, b.name)
     return '%s: %r / %r' % (path, a, b)
+
+
+def default_by_type(M, ty, name):
+    """A freshly constructed value of a library type, for struct fields a change adds to a struct a harness builds
+    (what `new()` / `Default` would put there); None when the type is not one of the known containers / scalars."""
+    import z3 as _z3
+    from mirsmt.values import Adt, Ref, Cell, Obj, bv, generic_args
+    ty = re.sub(r'\s+', ' ', (ty or '').strip().rstrip(','))
+    head = re.sub(r'^(?:\w+::)+', '', ty.split('<')[0].strip())
+    g = generic_args(ty)
+    if head in ('bool',):
+        return _z3.BoolVal(False)
+    if head in ('usize', 'u64', 'u32', 'isize', 'i64'):
+        return bv(0)
+    if head.startswith('Atomic'):
+        return Adt(head, {(None, 0): _z3.BoolVal(False) if head == 'AtomicBool' else bv(0)})
+    if head == 'Option':
+        return Adt(ty, {}, 0)
+    if head == 'Vec':
+        return Obj('vec', items=(), ty=ty)
+    if head in ('HashMap', 'BTreeMap', 'LinkedHashMap'):
+        m = M.new_assoc(g[0] if g else '?', g[1] if len(g) > 1 else '?', [])
+        return m.set(linked=True) if head != 'HashMap' else m
+    if head in ('RefCell', 'Cell', 'Mutex', 'RwLock') and g:
+        inner = default_by_type(M, g[0], name)
+        return None if inner is None else Adt(ty, {(None, 0): inner})
+    if head in ('Arc', 'Rc', 'Box') and g:
+        inner = default_by_type(M, g[0], name)
+        return None if inner is None else Ref(Cell(inner, name=name), (), pid=bv(0x7000 + (hash(name) % 4096)))
+    return None
 
 
 def find_method(prog, struct, meth, trait=None):
